@@ -136,3 +136,70 @@ func TestKillProc(t *testing.T) {
 		t.Fatalf("%+v", res)
 	}
 }
+
+// The simulated pipe behaves like io.Pipe under every schedule: the reader
+// sees the concatenation of what was written, then the writer's close error.
+func TestPipe(t *testing.T) {
+	for seed := int64(0); seed < 300; seed++ {
+		var got []byte
+		var end error
+		var wrote [3]int
+		res := Run(&rndPicker{rand.New(rand.NewSource(seed))}, 100000, false, func(s *Sched) {
+			r, w := Pipe()
+			var wg WaitGroup
+			wg.Add(2)
+			Go(func() {
+				defer wg.Done()
+				for i, chunk := range [][]byte{[]byte("hello "), {}, []byte("world")} {
+					n, err := w.Write(chunk)
+					wrote[i] = n
+					if err != nil {
+						t.Errorf("seed %d: write %d: %v", seed, i, err)
+					}
+				}
+				w.CloseWithError(errTestPipe)
+			})
+			Go(func() {
+				defer wg.Done()
+				buf := make([]byte, 1+int(seed%4))
+				for {
+					n, err := r.Read(buf)
+					got = append(got, buf[:n]...)
+					if err != nil {
+						end = err
+						return
+					}
+				}
+			})
+			wg.Wait()
+		})
+		if res.Deadlock || string(got) != "hello world" || end != errTestPipe || wrote != [3]int{6, 0, 5} {
+			t.Fatalf("seed %d: deadlock=%v got=%q end=%v wrote=%v", seed, res.Deadlock, got, end, wrote)
+		}
+	}
+	// reader closes early: the writer is released with the reader's error
+	res := Run(&rndPicker{rand.New(rand.NewSource(1))}, 100000, false, func(s *Sched) {
+		r, w := Pipe()
+		var wg WaitGroup
+		wg.Add(1)
+		Go(func() {
+			defer wg.Done()
+			if _, err := w.Write([]byte("abc")); err != errTestPipe {
+				t.Errorf("write after reader close: %v", err)
+			}
+		})
+		p := make([]byte, 1)
+		r.Read(p)
+		r.CloseWithError(errTestPipe)
+		wg.Wait()
+	})
+	if res.Deadlock {
+		t.Fatal("deadlock")
+	}
+}
+
+var errTestPipe = &testPipeErr{}
+
+type testPipeErr struct{}
+
+func (*testPipeErr) Error() string { return "test pipe error" }
